@@ -16,6 +16,7 @@ import (
 	"errors"
 	"fmt"
 	"hash"
+	"io"
 	"slices"
 	"time"
 
@@ -342,17 +343,45 @@ func (hs *clientHandshakeStateTLS13) processHelloRetryRequest() error {
 		// always send a key share for it.
 		//
 		// This will have to change once we support multiple hybrid KEMs.
-		if _, ok := curveForCurveID(curveID); !ok {
-			c.sendAlert(alertInternalError)
-			return errors.New("tls: CurvePreferences includes unsupported curve")
+		// [uTLS] SECTION BEGIN
+		// uTLS specs (randomized, custom, fingerprinted) may list a hybrid group without
+		// sending a share for it, so a server can request that share.
+		if curveID == X25519MLKEM768 || curveID == X25519Kyber768Draft00 {
+			ecdheKey, err := generateECDHEKey(c.config.rand(), X25519)
+			if err != nil {
+				c.sendAlert(alertInternalError)
+				return err
+			}
+			seed := make([]byte, mlkem.SeedSize)
+			if _, err := io.ReadFull(c.config.rand(), seed); err != nil {
+				c.sendAlert(alertInternalError)
+				return err
+			}
+			mlkemKey, err := mlkem.NewDecapsulationKey768(seed)
+			if err != nil {
+				c.sendAlert(alertInternalError)
+				return err
+			}
+			data := append(mlkemKey.EncapsulationKey().Bytes(), ecdheKey.PublicKey().Bytes()...)
+			if curveID == X25519Kyber768Draft00 {
+				data = append(ecdheKey.PublicKey().Bytes(), mlkemKey.EncapsulationKey().Bytes()...)
+			}
+			hs.keyShareKeys = &keySharePrivateKeys{curveID: curveID, ecdhe: ecdheKey, mlkem: mlkemKey, mlkemEcdhe: ecdheKey}
+			hello.keyShares = []keyShare{{group: curveID, data: data}}
+		} else {
+			// [uTLS] SECTION END
+			if _, ok := curveForCurveID(curveID); !ok {
+				c.sendAlert(alertInternalError)
+				return errors.New("tls: CurvePreferences includes unsupported curve")
+			}
+			key, err := generateECDHEKey(c.config.rand(), curveID)
+			if err != nil {
+				c.sendAlert(alertInternalError)
+				return err
+			}
+			hs.keyShareKeys = &keySharePrivateKeys{curveID: curveID, ecdhe: key}
+			hello.keyShares = []keyShare{{group: curveID, data: key.PublicKey().Bytes()}}
 		}
-		key, err := generateECDHEKey(c.config.rand(), curveID)
-		if err != nil {
-			c.sendAlert(alertInternalError)
-			return err
-		}
-		hs.keyShareKeys = &keySharePrivateKeys{curveID: curveID, ecdhe: key}
-		hello.keyShares = []keyShare{{group: curveID, data: key.PublicKey().Bytes()}}
 	}
 
 	if len(hello.pskIdentities) > 0 {
